@@ -2,6 +2,7 @@ package types
 
 import (
 	"fmt"
+	"reflect"
 )
 
 // JSONValue is an internal type used in storing various types, for converting any type to JSON supported type.
@@ -11,10 +12,11 @@ type JSONValue interface{}
 func ConvertValueList(values []interface{}) ([]interface{}, error) {
 	var jsonValues []interface{}
 	for _, val := range values {
-		if val == nil {
+		jsonValue := ConvertToJSONSupportedValue(val)
+		if jsonValue == nil {
 			return nil, fmt.Errorf("null value cannot be inserted")
 		}
-		jsonValues = append(jsonValues, ConvertToJSONSupportedValue(val))
+		jsonValues = append(jsonValues, jsonValue)
 	}
 	return jsonValues, nil
 }
@@ -30,6 +32,9 @@ func ToInterfaceArray(ja []JSONValue) []interface{} {
 
 // ConvertToJSONSupportedValue converts any type of Go into a type that is supported by JSON
 func ConvertToJSONSupportedValue(t interface{}) JSONValue {
+	if rv := reflect.ValueOf(t); rv.Kind() == reflect.Ptr && rv.IsNil() {
+		return nil // a nil pointer of any type is a null value
+	}
 	switch v := t.(type) {
 	// all number types are stored as float64, i.e., IEEE 754 64 bits floating point type.
 	case int, int8, int16, int32, int64, uint, uint8, uint16, uint32, uint64,
